@@ -327,6 +327,16 @@ class Gen:
                                       ("set", [("own", 2, "str"), ("foreign", 2, "u64")]),
                                       ("set", [("foreign", 0, "u8")])])
 
+        # 8. (appended last) every arm of the level shorthand macros: prefix combination x the token the field list starts with
+        #    (`ident = ..`, `ident`, `%ident`, `?ident`, `{ braced }` + message, message only) - each is a separate macro rule
+        for macro in list(EVENT_SHORT):
+            for pf in prefixes:
+                for first in [("ident", "=", "u64"), ("ident", "sh", "u64"), ("ident", "sh%", "str"), ("ident", "sh?", "i32"),
+                              ("dotted", "sh?", "bool"), ("dotted", "sh%", "u8")]:
+                    self.site(macro, [first, filler], msg=rng.choice([None, "lit"]), prefix=pf)
+                self.site(macro, [filler], msg="lit", prefix=pf, braced=True)
+                self.site(macro, [], msg="fmt", prefix=pf)
+
     def write(self):
         dots = sorted({p for n in DOTTED for p in n.split(".")[1:]})
         head = ["// GENERATED by tools/gen_macro_corpus.py -- do not edit", "#![allow(unused, non_camel_case_types, clippy::all)]", "use super::Ctx;"]
